@@ -291,6 +291,7 @@ def run(tier, seed, out, drv, facts):
             fired = True
         out.case(("direct", name, cls), fired, sample={"operation": name, "class": cls, "raised": fired})
         evaluate_after(out, f"direct:{name}:{cls}", f"fault of class {cls} at {name}", {"operation": name, "class": cls})
+    other_thread_cases(out)
     # --- random histories of public-API operations, then probes
     n = 30000 if thorough else 200
     extra = history_ops(rng)
@@ -321,7 +322,65 @@ def run(tier, seed, out, drv, facts):
         evaluate_after(out, "history:state", "random history of public-API operations", {"history": hist})
 
 
+def other_thread_cases(out):
+    """activity that is still going on in ANOTHER thread is unrelated activity too: a context open there (a call in
+    progress, a thread parked inside `with jaxtyped("context")`) must not be visible to the probes here. Made
+    deterministic with events, no timing involved."""
+    import threading
+
+    import typeguard
+    from jaxtyping import jaxtyped
+
+    def probes():
+        r = impl_prog.probe_clean()
+        r["n_is_free_3"] = impl.check_once(Duck((3,), "float32"), Float[Duck, "n"]) == "T"
+        r["n_is_free_4"] = impl.check_once(Duck((4,), "float32"), Float[Duck, "n"]) == "T"
+        return r
+
+    # (1) main thread inside a decorated call that bound n=5; a fresh thread probes
+    seen = {}
+
+    @jaxtyped(typechecker=typeguard.typechecked)
+    def busy(x: Float[Duck, "n"]):
+        t = threading.Thread(target=lambda: seen.update(probes()))
+        t.start()
+        t.join()
+
+    busy(Duck((5,), "float32"))
+    out.case(("other-thread", "call-in-progress"), True, sample={"probes": dict(seen)})
+    if not seen or not all(seen.values()):
+        out.violation("other-thread:call-in-progress", f"while another thread is inside a decorated call (n=5 bound there), the probes of a fresh thread give {seen}",
+                      {"scenario": "call-in-progress", "probes": dict(seen)})
+    # (2) a worker parked inside a context block that bound n=7; the main thread probes
+    inside, leave = threading.Event(), threading.Event()
+
+    def worker():
+        with jaxtyped("context"):
+            impl.check_once(Duck((7,), "float32"), Float[Duck, "n"])
+            inside.set()
+            leave.wait(30)
+
+    t = threading.Thread(target=worker)
+    t.start()
+    inside.wait(30)
+    try:
+        got = probes()
+    finally:
+        leave.set()
+        t.join()
+    out.case(("other-thread", "parked-in-context"), True, sample={"probes": got})
+    if not all(got.values()):
+        out.violation("other-thread:parked-in-context", f"while another thread is parked inside `with jaxtyped(\"context\")` (n=7 bound there), the probes here give {got}",
+                      {"scenario": "parked-in-context", "probes": got})
+    after = probes()
+    if not all(after.values()):
+        out.violation("other-thread:afterwards", f"after the other threads finished the probes give {after}", {"scenario": "afterwards", "probes": after})
+
+
 def replay(rep, out, drv, facts):
+    if "scenario" in rep:
+        other_thread_cases(out)
+        return
     if "program" in rep:
         got, _ = impl_prog.run_program(rep["program"], "typeguard", None, reset=False)
         out.case("replay", True, sample=rep["program"])
